@@ -99,7 +99,7 @@ func NewParameters(rlweParams rlwe.Parameters, t uint64) (p Parameters, err erro
 	nbQiMul := int(math.Ceil(float64(rlweParams.RingQ().ModulusAtLevel[rlweParams.MaxLevel()].BitLen()+rlweParams.LogN()) / 61.0))
 	/* #nosec G115 -- NthRoot cannot be negative */
 	g := ring.NewNTTFriendlyPrimesGenerator(61, uint64(rlweParams.NthRoot()))
-	primes, err := g.NextDownstreamPrimes(nbQiMul)
+	primes, err := nextPrimesNotIn(&g, nbQiMul, rlweParams.Q())
 	if err != nil {
 		return Parameters{}, err
 	}
@@ -127,6 +127,23 @@ func NewParameters(rlweParams rlwe.Parameters, t uint64) (p Parameters, err erro
 		ringQMul:   ringQMul,
 		ringT:      ringT,
 	}, nil
+}
+
+// nextPrimesNotIn returns the next k primes of the generator (downstream) that are not among
+// the given moduli: the auxiliary basis of the scale-invariant multiplication must be coprime to Q,
+// and Q may contain 61-bit primes.
+func nextPrimesNotIn(g *ring.NTTFriendlyPrimesGenerator, k int, moduli []uint64) (primes []uint64, err error) {
+	primes = make([]uint64, 0, k)
+	for len(primes) < k {
+		var prime uint64
+		if prime, err = g.NextDownstreamPrime(); err != nil {
+			return nil, err
+		}
+		if !slices.Contains(moduli, prime) {
+			primes = append(primes, prime)
+		}
+	}
+	return
 }
 
 // NewParametersFromLiteral instantiate a set of BGV parameters from a [ParametersLiteral] specification.
